@@ -230,7 +230,7 @@ func (r *rewriter) run() bool {
 		// imports that lost their last use (sync/atomic, when every use was a call)
 		for _, imp := range r.file.Imports {
 			p := strings.Trim(imp.Path.Value, `"`)
-			if p == "sync/atomic" || p == "sync" {
+			if p == "sync/atomic" || p == "sync" || p == "time" || p == "runtime" {
 				if !usesImport(r.file, imp, p) {
 					name := ""
 					if imp.Name != nil {
@@ -535,6 +535,20 @@ func (r *rewriter) rewriteCall(n *ast.CallExpr) ast.Expr {
 		// package-level sync/atomic functions
 		if id, ok := fun.X.(*ast.Ident); ok {
 			if pn, ok := r.info.Uses[id].(*types.PkgName); ok {
+				switch pn.Imported().Path() + "." + fun.Sel.Name {
+				case "time.Sleep":
+					// no clock is simulated: a sleep is a scheduling point
+					counts["sleep"]++
+					return call("Sleep", n.Args...)
+				case "runtime.Gosched":
+					counts["gosched"]++
+					return call("Gosched")
+				case "time.After", "time.AfterFunc", "time.NewTimer", "time.NewTicker", "time.Tick",
+					"context.WithTimeout", "context.WithDeadline":
+					// a timer firing on the real clock would make runs
+					// unrepeatable and could be mistaken for a deadlock
+					die("%s: %s.%s: timers are not modelled by this simulator", pos(n), pn.Imported().Path(), fun.Sel.Name)
+				}
 				if pn.Imported().Path() == "sync/atomic" {
 					if _, isFunc := r.info.Uses[fun.Sel].(*types.Func); isFunc {
 						counts["atomic"]++
